@@ -599,6 +599,10 @@ func (a *MaxValueArg) Parse() error {
 		if e != nil {
 			return e
 		}
+		if i.i == 0 {
+			// max-value-arg = "unbounded" / positive-integer-value
+			return errors.New("invalid max-elements: " + string(a.arg))
+		}
 	}
 	a.i = i
 	return nil
